@@ -1050,6 +1050,8 @@ class Interp:
         if not isinstance(f, Fn):
             return Top(f"call of {type(f).__name__}: {short(node, 40) if node is not None else ''}")
         k = f.kind
+        if k == "const":
+            return f.value
         if k == "partial":
             a2 = list(f.args) + list(args)
             kw = OrderedDict(f.kwargs)
